@@ -75,6 +75,11 @@ func cmdUnit(args []string) {
 				units = append(units, r)
 			}
 		}
+		for _, sf := range tp.Stable {
+			if len(want) == 0 || want["stable"] {
+				units = append(units, e.verifyStable(tp, sf, nil))
+			}
+		}
 		keys := sortedKeys(tp.Contracts)
 		for _, k := range keys {
 			if len(want) > 0 && !want[k] {
